@@ -39,47 +39,51 @@ def gen_steps(rng, tb, pad, last=None):
     return [[steps[(d, k)] for k in range(len(t))] for d, t in enumerate(tb)]
 
 
-def a8_candidates(tb, steps):
-    """step x bound of every static stride that has the maximal static step (dimension 0 / depth 0 is the dynamic one)."""
-    st = [(steps[d][k], tb[d][k]) for d in range(len(tb)) for k in range(len(tb[d])) if (d, k) != (0, 0)]
+def a8_candidates(tb, steps, dd=0):
+    """step x bound of every static stride that has the maximal static step (dimension dd / depth 0 is the dynamic one)."""
+    st = [(steps[d][k], tb[d][k]) for d in range(len(tb)) for k in range(len(tb[d])) if (d, k) != (dd, 0)]
     if not st:
         return []
     mx = max(x for x, _ in st)
     return [x * b for x, b in st if x == mx]
 
 
-def gen_side(rng, tb, dyn):
+def row_major_steps(tb):
+    tmp = {}
+    cur = 1
+    for d in reversed(range(len(tb))):
+        for k in reversed(range(len(tb[d]))):
+            tmp[(d, k)] = cur
+            cur *= tb[d][k]
+    return [[tmp[(d, k)] for k in range(len(tb[d]))] for d in range(len(tb))]
+
+
+def gen_side(rng, tb, dyn, dd=0):
     rank = len(tb)
     shape = shape_of(tb)
     kind = rng.choice(["tsl", "tsl", "none", "strided"])
     side = {"kind": kind, "off": 0, "dynmarks": []}
     if kind == "tsl":
-        side["steps"] = gen_steps(rng, tb, pad=rng.random() < 0.5, last=(0, 0) if dyn else None)
+        side["steps"] = gen_steps(rng, tb, pad=rng.random() < 0.5, last=(dd, 0) if dyn else None)
         side["off"] = rng.choice([0, 0, 3])
         if dyn:
-            side["dynmarks"].append([0, 0, "b"])
+            side["dynmarks"].append([dd, 0, "b"])
             # a dynamic ('?') step is only meaningful under A8: it equals (largest static step) x (its bound)
-            if rng.random() < 0.5 and a8_candidates(tb, side["steps"]).count(side["steps"][0][0]) >= 1:
-                side["dynmarks"].append([0, 0, "s"])
+            if rng.random() < 0.5 and a8_candidates(tb, side["steps"], dd).count(side["steps"][dd][0]) >= 1:
+                side["dynmarks"].append([dd, 0, "s"])
     elif kind == "none":
-        tmp = {}
-        cur = 1
-        for d in reversed(range(rank)):
-            for k in reversed(range(len(tb[d]))):
-                tmp[(d, k)] = cur
-                cur *= tb[d][k]
-        side["steps"] = [[tmp[(d, k)] for k in range(len(tb[d]))] for d in range(rank)]
+        side["steps"] = row_major_steps(tb)  # recomputed from the run-time shape when a dimension is dynamic
     else:
-        order = [d for d in range(rank) if not (dyn and d == 0)]
+        order = [d for d in range(rank) if not (dyn and d == dd)]
         rng.shuffle(order)
         if dyn:
-            order.append(0)
+            order.append(dd)
         cur = 1
         ds = {}
         for d in order:
             ds[d] = cur
             cur *= shape[d]
-            if rng.random() < 0.3 and not (dyn and d == 0):
+            if rng.random() < 0.3 and not (dyn and d == dd):
                 cur += rng.choice([1, 3])
         tmp = {}
         for d in range(rank):
@@ -90,7 +94,7 @@ def gen_side(rng, tb, dyn):
         side["steps"] = [[tmp[(d, k)] for k in range(len(tb[d]))] for d in range(rank)]
         side["dimstrides"] = [ds[d] for d in range(rank)]
         side["off"] = rng.choice([0, 0, 3])
-        side["dyn_stride"] = [bool(rng.random() < (0.5 if (dyn and d == 0) else 0.15)) for d in range(rank)]
+        side["dyn_stride"] = [bool(rng.random() < (0.5 if (dyn and d == dd) else 0.15)) for d in range(rank)]
         side["dyn_off"] = rng.random() < 0.3
     return side
 
@@ -108,7 +112,8 @@ def gen_case(rng, tier):
         d = max(range(rank), key=lambda q: shape_of(tb)[q])
         tb[d] = tb[d][:-1] or [2]
     dyn = rng.random() < 0.3
-    case = {"tb": tb, "el": rng.choice(list(EL)), "dyn": dyn, "sides": [gen_side(rng, tb, dyn) for _ in range(2)]}
+    dd = rng.choice([0, 0] + list(range(rank))) if dyn else 0
+    case = {"tb": tb, "el": rng.choice(list(EL)), "dyn": dyn, "dyn_dim": dd, "sides": [gen_side(rng, tb, dyn, dd) for _ in range(2)]}
     case["env"] = {"base": [0x1000 + 8 * rng.randrange(16), 0x20000 + 8 * rng.randrange(16)], "seed": rng.randrange(1 << 30), "shuffle": rng.random() < 0.8, "dyn_bound": rng.choice([1, 2, 3, 4])}
     return case
 
@@ -116,7 +121,8 @@ def gen_case(rng, tier):
 def side_type(case, side):
     tb = case["tb"]
     shape = shape_of(tb)
-    sh = "x".join((["?"] if case["dyn"] else [str(shape[0])]) + [str(x) for x in shape[1:]])
+    dd = case.get("dyn_dim", 0)
+    sh = "x".join("?" if (case["dyn"] and d == dd) else str(x) for d, x in enumerate(shape))
     k = side["kind"]
     if k == "none":
         lay = ""
@@ -138,10 +144,10 @@ def runtime_layout(case, side):
     tb = [list(t) for t in case["tb"]]
     steps = [list(s) for s in side["steps"]]
     if case["dyn"]:
-        old = tb[0][0]
-        tb[0][0] = case["env"]["dyn_bound"]
-        # the generator made (0,0) the outermost (largest) step, so resizing it keeps all other steps
-        del old
+        # the generator made (dyn_dim, 0) the outermost (largest) step, so resizing it keeps all other steps
+        tb[case.get("dyn_dim", 0)][0] = case["env"]["dyn_bound"]
+        if side["kind"] == "none":
+            steps = row_major_steps(tb)
     return tb, steps
 
 
